@@ -70,8 +70,8 @@ var propStandins = map[string][]Standin{
 	}},
 	"C06": {{
 		Name: "tag-freshness", Pkg: "internal/index/manager", TestFile: "fresh_standin_test.go", TestName: "TestC06FreshStandin", OutEnv: "C06_OUT",
-		EnvQuick: []string{"C06_HISTORIES=30", "C06_LEN=8"}, EnvThorough: []string{"C06_HISTORIES=300", "C06_LEN=10"},
-		Bound:   "freshness of decided tags after a history (not a proof about interleavings: the scheduler's interleaving of job completions with the calls is whatever happens in the run): 30 (quick) / 300 (thorough) seeded histories of 8 / 10 manager calls out of AddTag (tag/a, tag/b, service/s with plain, payload, negated, tag-referencing and sub-query-referencing definitions; mark/m), definition updates, mark add/delete, imports of more packets (new streams and more data for existing conversations), short pauses; then the service is left alone until no job runs and no tag reports undecided streams (30 s limit), and for every tag the search `tag:x` must return exactly the streams the search for its current definition returns",
+		EnvQuick: []string{"C06_HISTORIES=150", "C06_LEN=10"}, EnvThorough: []string{"C06_HISTORIES=1200", "C06_LEN=12"},
+		Bound:   "freshness of decided tags after a history (not a proof about interleavings: the scheduler's interleaving of job completions with the calls is whatever happens in the run): 150 (quick) / 1200 (thorough) seeded histories of 10 / 12 manager calls out of AddTag (tag/a, tag/b, service/s with plain, payload, negated, tag-referencing and sub-query-referencing definitions; mark/m), definition updates (of marks too: a new id list), mark add/delete, imports of more packets (new streams and more data for existing conversations), short pauses; then the service is left alone until no job runs and no tag reports undecided streams (30 s limit), and for every tag the search `tag:x` must return exactly the streams the search for its current definition returns",
 		Timeout: 10 * time.Minute,
 	}, {
 		Name: "tag-search", Pkg: "internal/index", TestFile: "search_standin_test.go", TestName: "TestC02Standin", OutEnv: "C02_OUT",
